@@ -60,13 +60,14 @@ Theorem accepted_is_finite_positive en pf p :
   admission_validate en pf p = true -> wellformed_sharing pf p = true.
 Proof.
   intros H. apply admission_validate_inner in H as [H _].
-  apply validate_parts in H as (Hm & Hf & Hn & _ & E2 & _).
+  apply validate_parts in H as (Hm & Hf & Hn & E1 & E2 & _).
   unfold wellformed_sharing.
   rewrite (valid_fraction_good _ _ Hf).
   unfold valid_memory in Hm. rewrite (valid_int_pos _ Hm).
   unfold valid_numdev in Hn. rewrite (valid_int_pos _ Hn).
-  cbn [andb]. destruct (isSome (a_fraction p)), (isSome (a_memory p)); try reflexivity.
-  cbn in E2. discriminate.
+  unfold requests_gpu_fraction.
+  cbn [andb]. destruct (isSome (a_fraction p)), (isSome (a_memory p)), (first_gpu_limit p);
+    cbn in E1, E2 |- *; try reflexivity; discriminate.
 Qed.
 
 (** ** requests = limits on normalised pods *)
